@@ -25,7 +25,7 @@ fn day_targets() -> Vec<i64> {
 fn points_u32(t: u32) -> Vec<u32> {
     let t = t as u64;
     let h = t * 3 / 2;
-    let mut v: Vec<u64> = vec![0, t.saturating_sub(1), t, t + 1, h.saturating_sub(1), h, h + 1, 2 * t, 900_000_000, (u32::MAX - 1) as u64];
+    let mut v: Vec<u64> = vec![0, t.saturating_sub(1), t, t + 1, h.saturating_sub(1), h, h + 1, 2 * t, 254, 255, 256, 65_534, 65_535, 65_536, 900_000_000, (u32::MAX - 1) as u64];
     v.retain(|x| *x <= (u32::MAX - 1) as u64);
     v.sort();
     v.dedup();
@@ -62,7 +62,15 @@ fn plant_and_add(subj: &mut Subject, client: Uuid, age_days: i64, since: u32) ->
         txn.commit().map_err(|e| format!("commit: {e:#}"))?;
     }
     match subj.exec(client, &Req::AddVersion { parent: v1, data: b"second".to_vec() }) {
-        Resp::AddOk { urg, .. } => Ok(urg),
+        Resp::AddOk { urg, .. } => {
+            // the stored counter must have advanced by exactly one
+            let mut txn = subj.storage.txn(client).map_err(|e| format!("txn: {e:#}"))?;
+            match txn.get_client().map_err(|e| format!("get_client: {e:#}"))?.and_then(|c| c.snapshot) {
+                Some(s) if s.versions_since == since + 1 => Ok(urg),
+                Some(s) => Err(format!("COUNTER: versions-since was {since} before an accepted AddVersion and is {} after it", s.versions_since)),
+                None => Err("COUNTER: the snapshot record disappeared".into()),
+            }
+        }
         o => Err(o.short()),
     }
 }
@@ -170,7 +178,7 @@ pub fn shard_run(tier: &str, seed: u64, replay_case: Option<usize>, shard: Shard
                     Err(e) => {
                         out.found.push(Found {
                             property: "C12".into(),
-                            msg: format!("with targets (days={}, versions={}) and a snapshot aged {age} days with {since} versions since, AddVersion on {} did not succeed: {e}", cfg.snapshot_days, cfg.snapshot_versions, kind.name()),
+                            msg: if e.starts_with("COUNTER") { format!("on {}: {e} (the counter must equal the number of versions accepted since the snapshot was stored)", kind.name()) } else { format!("with targets (days={}, versions={}) and a snapshot aged {age} days with {since} versions since, AddVersion on {} did not succeed: {e}", cfg.snapshot_days, cfg.snapshot_versions, kind.name()) },
                             signature: format!("C12:computation-fails days={} versions={}", cfg.snapshot_days, cfg.snapshot_versions),
                             replay: case,
                         });
